@@ -13,13 +13,73 @@ XferCases(inits, pairs, reqs, modes, maxf) ==
 \* only failing subsets of what will actually be uploaded
 Meaningful(c) ==
     /\ Loadable(c.init, c.src, c.req, c.shallow)
-    /\ c.F \subseteq XStatus(c.init, {}, c.src, c.dst, c.req, c.shallow, c.idx).new
-    /\ XStatus(c.init, {}, c.src, c.dst, c.req, c.shallow, c.idx).new # {}
+    /\ LET new == XStatus(c.init, {}, c.src, c.dst, c.req, c.shallow, c.idx).new
+       IN c.F \subseteq new /\ new # {}
 
-PushCases  == {c \in XferCases(InitPush, PushPair, ReqClosed, ShallowIdxModes, 2) : Meaningful(c)}
-FetchCases == {c \in XferCases(InitFetch, FetchPair, ReqClosed, {<<TRUE, FALSE>>, <<FALSE, FALSE>>}, 2) : Meaningful(c)}
+PushCases(_u) == {c \in XferCases(InitPush, PushPair, ReqClosed, ShallowIdxModes, 2) : Meaningful(c)}
+FetchCases(_u) == {c \in XferCases(InitFetch, FetchPair, ReqClosed, {<<TRUE, FALSE>>, <<FALSE, FALSE>>}, 2) : Meaningful(c)}
+
+(***************************** C06 : gc ******************************************)
+Fresh(s) == IF Class[s] = "local" THEN "ok_p" ELSE "ok_u"
+Only(s, f) == [t \in Stores |-> IF t = s THEN f ELSE [o \in Oids |-> Absent]]
+Holding(s, X) == Only(s, [o \in Oids |-> IF o \in X THEN Fresh(s) ELSE Absent])
+GcCases(_u) ==
+    { [init |-> Holding(s, X), s |-> s, used |-> u, foreign |-> fo, shallow |-> sh, dry |-> dry, ro |-> ro] :
+        s \in Stores, X \in SUBSET Oids, u \in SUBSET Oids, fo \in {{}, {"f1"}, {"d2", "f3"}},
+        sh \in BOOLEAN, dry \in BOOLEAN, ro \in {FALSE} }
+    \cup
+    { [init |-> Holding(s, X), s |-> s, used |-> u, foreign |-> {}, shallow |-> sh, dry |-> FALSE, ro |-> TRUE] :
+        s \in Stores, X \in {Oids, {"f1", "d2"}}, u \in {{}, {"d1"}, {"f1", "f2"}}, sh \in BOOLEAN }
+
+(***************************** C12 / C07 : status, check **************************)
+\* one store holding every mix of absent / intact / corrupt-unprotected objects
+Mixes(s) == { [o \in Oids |-> IF o \in X THEN (IF o \in B THEN "bad_u" ELSE Fresh(s)) ELSE Absent] :
+                X \in SUBSET Oids, B \in SUBSET Files }
+QueryIds == ReqAll \cup {{"f1", "f2"}, {"f2"}, {"d2"}}
+StatusCases(_u) ==
+    UNION { { [init |-> Only(s, m), s |-> s, ids |-> ids, shallow |-> sh] :
+                m \in Mixes(s), ids \in QueryIds, sh \in BOOLEAN } : s \in Stores }
+CheckStates(s) == {Absent, "ok_u", "bad_u"} \cup (IF Class[s] = "local" THEN {"ok_p"} ELSE {})
+CheckCases(_u) ==
+    UNION { { [init |-> Only(s, [x \in Oids |-> IF x = o THEN st ELSE IF x \in {"f2", "d1"} THEN Fresh(s) ELSE Absent]),
+               s |-> s, o |-> o] : o \in Oids, st \in CheckStates(s) } : s \in Stores }
+
+(***************************** C11 : truthfulness **********************************)
+\* source holding any subset (so that requested objects can be missing on both sides),
+\* destination any closed subset, any request
+AnySrc(src, dst) ==
+    { [t \in Stores |-> IF t = src THEN [o \in Oids |-> IF o \in X THEN Fresh(src) ELSE Absent]
+                                    ELSE [o \in Oids |-> IF o \in Y THEN Fresh(dst) ELSE Absent]] :
+        X \in SUBSET Oids, Y \in ClosedSets }
+C11Cases(_u) ==
+    { c \in XferCases(AnySrc("cache", "remote"), PushPair, ReqAll, ShallowIdxModes, 1)
+            \cup XferCases(AnySrc("remote", "cache"), FetchPair, ReqAll, {<<TRUE, FALSE>>, <<FALSE, FALSE>>}, 1) :
+        Meaningful(c) }
+\* quick tier: sources lacking at most two objects, one failing upload at most
+NearlyFull(src, dst) ==
+    { [t \in Stores |-> IF t = src THEN [o \in Oids |-> IF o \in X THEN Fresh(src) ELSE Absent]
+                                    ELSE [o \in Oids |-> IF o \in Y THEN Fresh(dst) ELSE Absent]] :
+        X \in {Z \in SUBSET Oids : Cardinality(Oids \ Z) <= 2}, Y \in {{}, {"f1"}, {"f2", "f3"}, {"f1", "f2", "d1"}} }
+C11Quick(_u) ==
+    { c \in XferCases(NearlyFull("cache", "remote"), PushPair, ReqAll, ShallowIdxModes, 1)
+            \cup XferCases(NearlyFull("remote", "cache"), FetchPair, ReqAll, {<<TRUE, FALSE>>, <<FALSE, FALSE>>}, 1) :
+        Meaningful(c) }
+\* generic source with corrupt file objects, fetched into the local cache with and without verify
+CorruptSrc(_u) ==
+    { [t \in Stores |-> IF t = "remote" THEN [o \in Oids |-> IF o \in B THEN "bad_u" ELSE "ok_u"]
+                                        ELSE [o \in Oids |-> IF o \in Y THEN "ok_p" ELSE Absent]] :
+        B \in (SUBSET Files) \ {{}}, Y \in ClosedSets }
+VerifyCases(_u) ==
+    { [init |-> S, src |-> "remote", dst |-> "cache", req |-> r, shallow |-> sh, idx |-> FALSE, F |-> {}, verify |-> v] :
+        S \in CorruptSrc(0), r \in ReqClosed, sh \in BOOLEAN, v \in BOOLEAN }
 
 GenInit == Init
 GenNext == UNCHANGED vars
-ASSUME JsonSerialize(IOEnv.GEN_OUT, [push |-> PushCases, fetch |-> FetchCases])
+What == IOEnv.GEN_WHAT
+Out == CASE What = "xfer"   -> [push |-> PushCases(0), fetch |-> FetchCases(0)]
+         [] What = "gc"     -> [gc |-> GcCases(0)]
+         [] What = "status" -> [status |-> StatusCases(0), check |-> CheckCases(0)]
+         [] What = "c11"    -> [c11 |-> C11Cases(0), verify |-> VerifyCases(0)]
+         [] What = "c11quick" -> [c11 |-> C11Quick(0), verify |-> VerifyCases(0)]
+ASSUME JsonSerialize(IOEnv.GEN_OUT, Out)
 =============================================================================
